@@ -37,6 +37,15 @@ func init() {
 	judges["ws-test-cfg"] = func(r *Run) []Finding { return onlyRules(judges["ws-test"](r), cfgRules...) }
 	judges["ws-traffic-cfg"] = func(r *Run) []Finding { return onlyRules(judges["ws-traffic"](r), cfgRules...) }
 	judges["ws-baseline"] = func(r *Run) []Finding { return nil }
+	judges["ws-dial"] = func(r *Run) []Finding {
+		var fs []Finding
+		for _, f := range dialFindings(r) {
+			if strings.HasPrefix(f.Key, "cfg.") {
+				fs = addFinding(fs, f.Key, f.Detail+" (after a refused first dial)", f.UE)
+			}
+		}
+		return fs
+	}
 	judges["ws-none"] = judgeNoProcedure
 	judges["ws-fault"] = judgeFault
 }
@@ -579,7 +588,19 @@ func checkC18(c *Ctx) {
 		}
 		jobs = append(jobs, Job{S: s, Rig: "ws", Judge: "ws-traffic-cfg", Tag: "c18-traffic"})
 	}
+	// a refused first dial: whatever the program does next, it may not open an association with
+	// other parameters than the configured ones
+	for i := 0; i < nT/10; i++ {
+		o := GenOpts{Profile: "c18-dialfail", Mode: []string{"test", "traffic"}[i%2], MinReg: 1, MaxReg: 2, Sessions: true, MaxCount: 2, Latency: "zero", ExplicitUEs: 2}
+		s := Gen(root.Uint64(), o)
+		s.Faults = []scn.Fault{{Kind: "dial_fail", Class: "first"}}
+		jobs = append(jobs, Job{S: s, Rig: "ws", Judge: "ws-dial", Tag: "c18-dial-refused-once"})
+	}
 	c.Batch(jobs, func(j Job, r *Run, fs []Finding) {
+		if len(j.S.Faults) > 0 {
+			c.Probes["first-dial-refused"]++
+			return
+		}
 		if j.S.Config.DLIface != j.S.Config.ULIface && len(j.S.Args) == 0 {
 			c.Probes["distinct-interfaces-distinguish-a-swap"]++
 		}
@@ -813,6 +834,7 @@ func checkC19(c *Ctx) {
 			}
 		}
 		add(scn.Fault{Kind: "dial_fail"})
+		add(scn.Fault{Kind: "dial_fail", Class: "first"})
 		for j := 0; j < nw; j++ {
 			if c.Tier == "thorough" || j%3 == i%3 {
 				add(scn.Fault{Kind: "write_err", K: j})
